@@ -4,6 +4,7 @@
    Proofs/Relay.v. *)
 From Coq Require Import List NArith Bool.
 From MV Require Import Model.Relay Gen.RelaySrc Proofs.RelayInv Proofs.Relay Model.UrlBuild Proofs.UrlBuild.
+From MV Require Model.RelayHttp Gen.RelayHttpSrc Proofs.RelayHttp.
 Import ListNotations.
 Open Scope N_scope.
 
@@ -146,3 +147,92 @@ Proof.
   - intros (_ & _ & H). now apply H.
   - intros (H & _). discriminate H.
 Qed.
+
+(* ======================================================================================================== *)
+(* C01 (HTTP/1 header fields and body) - "...reaches the other side with the same method, request URI, header fields
+   and body".  Model: Model/RelayHttp.v (fasthttp's header parser and writer + MOSN's HTTP/1 stream layer); a message is
+   (method / status, ordered list of (lower-cased name, value bytes), body bytes); the framing fields content-length,
+   transfer-encoding and trailer are hop-level (the proxy buffers the body and re-frames it with Content-Length) and
+   are not part of a message. *)
+Module Http1.
+Import MV.Model.RelayHttp MV.Gen.RelayHttpSrc MV.Proofs.RelayHttp String.
+Open Scope string_scope.
+Open Scope list_scope.
+
+(* the stream layer in the tree has the shape the statements are instantiated for (comparison by conversion):
+   headers copied with fasthttp's CopyTo (raw fields, cookies not collected), fasthttp's default Content-Type
+   switched off for proxied requests and responses, no multipart pre-parse *)
+Theorem c01_http1_source_is_verified_source :
+  RelayHttpSrc_translator_ok = true /\ http_shape_ok = true /\ src_hsw = hsw_verified.
+Proof. exact (conj eq_refl (conj eq_refl eq_refl)). Qed.
+
+(* THE STATEMENT.  For every request and response (any fields, any values, any multiplicity and order, any body), with
+   no route action:
+   - the method / status arrives unchanged;
+   - every header field whose name is NOT in the explicit exception list arrives with the same values, the same
+     multiplicity and the same relative order of the same-name fields (names compared case-insensitively: they are
+     lower-cased in the model);
+   - the body bytes arrive unchanged (a response to HEAD has none).
+   Exceptions, request:  connection (hop-by-hop, RFC 7230 6.1), expect (100-continue is answered by the proxy, RFC 7231
+     5.1.1), host / user-agent / content-type (single-valued fields: see c01_http1_request_single_valued).
+   Exceptions, response: connection (hop-by-hop), server / content-type / content-encoding (single-valued: the last one
+     arrives), date (REPLACED by the proxy's clock: c01_http1_date_refuted, listed finding). *)
+Theorem c01_http1_headers_identity :
+  (forall mp q,
+     q_method (fwd_req src_hsw mp q) = q_method q /\
+     q_body (fwd_req src_hsw mp q) = q_body q /\
+     forall n, ~ In n ["host"; "user-agent"; "content-type"; "connection"; "expect"] ->
+       named n (q_fields (fwd_req src_hsw mp q)) = named n (q_fields q)) /\
+  (forall head closing now p,
+     p_status (fwd_resp src_hsw head closing now p) = p_status p /\
+     p_body (fwd_resp src_hsw head closing now p) = (if head then [] else p_body p) /\
+     forall n, ~ In n ["server"; "content-type"; "content-encoding"; "connection"; "date"] ->
+       named n (p_fields (fwd_resp src_hsw head closing now p)) = named n (p_fields p)).
+Proof.
+  exact (conj (fun mp q => conj (fwd_req_method hsw_verified mp q)
+                          (conj (fwd_req_body hsw_verified mp q eq_refl) (fwd_req_generic hsw_verified mp q)))
+              (fun head closing now p => conj (fwd_resp_status hsw_verified head closing now p)
+                          (conj (fwd_resp_body hsw_verified head closing now p) (fwd_resp_generic hsw_verified head closing now p)))).
+Qed.
+Print Assumptions c01_http1_headers_identity.
+
+(* the single-valued request fields: exactly the LAST occurrence arrives (if its value is non-empty); Host lower-cased
+   (host names are case-insensitive); no Content-Type is invented *)
+Theorem c01_http1_request_single_valued : forall mp q n, In n ["host"; "user-agent"; "content-type"] ->
+  named n (q_fields (fwd_req src_hsw mp q)) =
+  named n (one "user-agent" (nonempty (last_value "user-agent" (q_fields q))) ++
+           one "host" (option_map lowerb (last_value "host" (q_fields q))) ++
+           one "content-type" (nonempty (last_value "content-type" (q_fields q)))).
+Proof.
+  exact (fun mp q n H => eq_trans (generic_no_special hsw_verified mp q n H) (single_valued_verified q n)).
+Qed.
+
+Example c01_http1_example : (* two Cookie lines, a repeated Accept, an empty value, mixed hop-by-hop fields *)
+  let q := mkReq "POST" [("cookie", bytes_of "a=1;b=2"); ("accept", bytes_of "text/html"); ("host", bytes_of "Test.Local");
+                         ("cookie", bytes_of "pref=""x y"";"); ("accept", bytes_of "*/*"); ("x-empty", []);
+                         ("connection", bytes_of "close")] [1; 2; 3]%N in
+  q_fields (fwd_req src_hsw (fun b => b) q) =
+    [("host", bytes_of "test.local"); ("cookie", bytes_of "a=1;b=2"); ("accept", bytes_of "text/html");
+     ("cookie", bytes_of "pref=""x y"";"); ("accept", bytes_of "*/*"); ("x-empty", [])] /\
+  q_body (fwd_req src_hsw (fun b => b) q) = [1; 2; 3]%N.
+Proof. vm_compute. split; reflexivity. Qed.
+
+(* "the origin's Date arrives unchanged" is FALSE for the code in the tree: fasthttp's response writer always writes its
+   own clock and drops the received Date field (no public switch in the vendored version). *)
+Definition c01_http1_date_statement : Prop :=
+  forall w head closing now p, named "date" (p_fields (fwd_resp w head closing now p)) = named "date" (p_fields p).
+Theorem c01_http1_date_refuted : ~ c01_http1_date_statement.
+Proof. exact date_statement_refuted. Qed.
+Theorem c01_http1_date_is_proxy_clock : forall w head closing now p,
+  named "date" (p_fields (fwd_resp w head closing now p)) = [("date", now)].
+Proof. exact fwd_resp_date. Qed.
+Print Assumptions c01_http1_date_refuted.
+
+(* the stream layer as it stood before the repairs (hsw_old): a Content-Type appeared from nowhere in both directions, and
+   the body of a multipart/form-data request was whatever fasthttp's form parser + writer made of it *)
+Theorem c01_http1_old_shape_refuted :
+  named "content-type" (q_fields (fwd_req hsw_old (fun b => b) (mkReq "POST" [("host", [104%N])] [1%N]))) = [("content-type", default_req_ct)] /\
+  named "content-type" (p_fields (fwd_resp hsw_old false false [] (mkResp 200 [] [1%N] 0 false))) = [("content-type", default_resp_ct)] /\
+  ~ (forall mp q, q_body (fwd_req hsw_old mp q) = q_body q).
+Proof. exact (conj old_request_content_type_invented (conj old_response_content_type_invented old_body_statement_refuted)). Qed.
+End Http1.
